@@ -75,6 +75,10 @@ type Config struct {
 	// runnable (release events, heal faults, start a new phase) and returns
 	// false when the run is over.
 	OnQuiesce func(s *Sim, n int) bool
+	// OnPanic sees a panic that ends a simulated goroutine; returning true
+	// means it was an orderly end (the simulated process exited) and not a
+	// failure of the code under test.
+	OnPanic func(v interface{}) bool
 }
 
 // Sim is one simulated execution.
@@ -177,7 +181,7 @@ func (s *Sim) entry(g *G, f func()) {
 	<-g.gate
 	defer func() {
 		if r := recover(); r != nil {
-			if _, ok := r.(abortRun); !ok {
+			if _, ok := r.(abortRun); !ok && !(s.cfg.OnPanic != nil && s.cfg.OnPanic(r)) {
 				s.SetFailure(&Failure{Class: "panic", Msg: fmt.Sprintf("%v\n%s", r, shortStack()), Sites: []string{firstLine(fmt.Sprint(r))}})
 			}
 		}
@@ -571,6 +575,17 @@ func After(g *G) {
 	}
 	g.inOp = false
 	g.sim.park(g, g.site)
+}
+
+// OthersAlive reports whether any simulated goroutine other than the running
+// one has not finished yet.
+func (s *Sim) OthersAlive() bool {
+	for _, g := range s.gs {
+		if g != s.cur && atomic.LoadInt32(&g.state) != stDone {
+			return true
+		}
+	}
+	return false
 }
 
 // Abort ends the calling goroutine immediately (used after a failure).
